@@ -9,6 +9,7 @@ if [ -n "$(git status --porcelain)" ]; then echo "/repo not clean"; exit 2; fi
 if [[ "$P" == revert:* ]]; then
     git show "${P#revert:}" | git apply -R || { echo "cannot reverse ${P}"; git checkout -- .; exit 2; }
 else
+    case "$P" in /*) ;; *) P="/verif/$P";; esac
     git apply "$P" || { echo "patch does not apply"; git checkout -- .; exit 2; }
 fi
 cd /verif
